@@ -201,6 +201,10 @@ static inline ChildEnd run_isolated(Harness &h, const Json &plan, int timeout_s,
     RunCtx ctx; ctx.attach(slot); g_slot = slot; g_ctx = &ctx;
     h.worker_init();
     Outcome o = h.execute(plan, ctx);
+    if (const char *rep = getenv("VERIF_REPEAT")) for (int k = 1; k < atoi(rep); k++) {  // development aid: does a run depend on what ran before it in the process?
+      Outcome o2 = h.execute(plan, ctx);
+      if (o2.trace_hash != o.trace_hash) fprintf(stderr, "VERIF_REPEAT: execution %d of the same plan in one process: trace hash %016llx, first was %016llx\n", k + 1, (unsigned long long) o2.trace_hash, (unsigned long long) o.trace_hash);
+    }
     Json r = Json::object();
     r.set("violation", o.violation); r.set("cls", o.cls); r.set("sig", o.sig); r.set("detail", o.detail);
     r.set("hash", fmt("%016llx", (unsigned long long) o.trace_hash));
